@@ -247,7 +247,8 @@ def check(rep, tier, seed):
              (["create", "-s", "a,zzz", "--project-shape", "3"], render_vcf(["a", "b"], [["0/1", "0/0"]])),
              (["create", "-s", "zzz,a", "-p", "1"], render_vcf(["a", "b"], [["0/1", "0/0"]]))]
     # a call set WITHOUT sample columns (sites only): the list of all samples is empty, as is an empty samples file - an error
-    nos = render_vcf([], [[], []])
+    from callsets import HEADER_LINES as _HL
+    nos = ("\n".join(list(_HL) + ["\t".join(["#CHROM", "POS", "ID", "REF", "ALT", "QUAL", "FILTER", "INFO"]), "chr1\t1\t.\tA\tC\t.\t.\t.", "chr1\t2\t.\tG\tT\t.\tPASS\t."]) + "\n").encode()
     ejobs += [(["create"], nos), (["create", "-s", "a"], nos), (["create", "-p", "1"], nos)]
     gpath = os.path.join(WORK, "c09_ghost.txt"); open(gpath, "wb").write(b"a\tA\nghost\tA\n")
     ejobs.append((["create", "-S", gpath, "-p", "1"], render_vcf(["a", "b"], [["0/1", "0/0"]])))
